@@ -65,12 +65,11 @@ func NewTable(file storage.File) *Table {
 
 	runtime.AddCleanup(t, func(p CleanupParams) {
 		// Another table in this process still uses the file.
-		if !releaseTableFile(p.uri) {
+		last, exclusivelyOwns := releaseTableFile(p.uri)
+		if !last {
 			return
 		}
-		if err := p.deleteFunc(); err != nil {
-			slog.Error("table cleanup", "err", err)
-		}
+		deleteUnusedTableFile(p.uri, exclusivelyOwns, p.deleteFunc)
 	}, params)
 
 	return t
@@ -80,10 +79,16 @@ func NewTable(file storage.File) *Table {
 // that refer to it. A database opened from a checkpoint refers to the same files
 // as the tables of the database instance it replaces, so a file may only be
 // deleted when the last table referring to it has been collected.
+//
+// A file that was also loaded from a checkpoint document may be shared with
+// other operators. Its ownership check is remembered so that it is consulted
+// whichever of the tables is collected last - the cleanup of the table that
+// originally wrote the file would otherwise delete it without asking.
 var tableFileRefs = struct {
 	sync.Mutex
 	counts map[string]int
-}{counts: make(map[string]int)}
+	shared map[string]func() (bool, error)
+}{counts: make(map[string]int), shared: make(map[string]func() (bool, error))}
 
 func retainTableFile(uri string) {
 	tableFileRefs.Lock()
@@ -91,16 +96,46 @@ func retainTableFile(uri string) {
 	tableFileRefs.counts[uri]++
 }
 
+// retainSharedTableFile is retainTableFile for a table loaded from a document.
+func retainSharedTableFile(uri string, exclusivelyOwns func() (bool, error)) {
+	tableFileRefs.Lock()
+	defer tableFileRefs.Unlock()
+	tableFileRefs.counts[uri]++
+	tableFileRefs.shared[uri] = exclusivelyOwns
+}
+
 // releaseTableFile drops one reference and reports whether it was the last one.
-func releaseTableFile(uri string) bool {
+// For the last reference of a file that was loaded from a document it also
+// returns that table's ownership check.
+func releaseTableFile(uri string) (last bool, exclusivelyOwns func() (bool, error)) {
 	tableFileRefs.Lock()
 	defer tableFileRefs.Unlock()
 	tableFileRefs.counts[uri]--
 	if tableFileRefs.counts[uri] <= 0 {
+		exclusivelyOwns = tableFileRefs.shared[uri]
 		delete(tableFileRefs.counts, uri)
-		return true
+		delete(tableFileRefs.shared, uri)
+		return true, exclusivelyOwns
 	}
-	return false
+	return false, nil
+}
+
+// deleteUnusedTableFile runs when the last table of this process that referred
+// to the file has been collected.
+func deleteUnusedTableFile(uri string, exclusivelyOwns func() (bool, error), deleteFunc func() error) {
+	if exclusivelyOwns != nil {
+		canDelete, err := exclusivelyOwns()
+		if err != nil {
+			slog.Error("failed determining exclusive ownership, not deleting", "err", err, "uri", uri)
+			return
+		}
+		if !canDelete {
+			return
+		}
+	}
+	if err := deleteFunc(); err != nil {
+		slog.Error("failed deleting table", "uri", uri, "err", err)
+	}
 }
 
 type TableDocument struct {
@@ -147,26 +182,17 @@ func NewTableFromDocument(fs storage.FileSystem, dataOwnership kv.DataOwnership,
 		uri:           doc.URI,
 	}
 
-	retainTableFile(params.uri)
+	retainSharedTableFile(params.uri, func() (bool, error) {
+		return params.dataOwnership.ExclusivelyOwnsTable(params.uri, params.startKey, params.endKey)
+	})
 
 	runtime.AddCleanup(t, func(p CleanupParams) {
 		// Another table in this process still uses the file.
-		if !releaseTableFile(p.uri) {
+		last, exclusivelyOwns := releaseTableFile(p.uri)
+		if !last {
 			return
 		}
-
-		canDelete, err := p.dataOwnership.ExclusivelyOwnsTable(p.uri, p.startKey, p.endKey)
-		if err != nil {
-			slog.Error("failed determining exclusive ownership, not deleting", "err", err, "uri", p.uri)
-			return
-		}
-
-		if canDelete {
-			err := p.deleteFunc()
-			if err != nil {
-				slog.Error("failed deleting table", "uri", p.uri, "err", err)
-			}
-		}
+		deleteUnusedTableFile(p.uri, exclusivelyOwns, p.deleteFunc)
 	}, params)
 
 	return t
